@@ -68,6 +68,9 @@ impl PartialEq for F64Bits {
 
 #[derive(Debug, Clone, PartialEq, Serialize, Deserialize)]
 pub struct UnitStruct;
+/// A tuple struct without fields: `deserialize_tuple_struct(_, 0, _)`.
+#[derive(Debug, Clone, PartialEq, Serialize, Deserialize)]
+pub struct TupleS0();
 
 /// sequence serialised without a known length (-> indefinite array)
 #[derive(Debug, Clone, PartialEq)]
@@ -374,6 +377,9 @@ pub fn run_c17(sink: &mut dyn Sink) {
     all_wrappers(sink, "Vec<u8>", vec![vec![], vec![1u8], (0..24).collect::<Vec<u8>>()]);
     all_wrappers(sink, "(u8,u16)", vec![(0u8, 0u16), (255, 65535)]);
     all_wrappers(sink, "[u8;3]", vec![[0u8; 3], [1, 24, 255]]);
+    all_wrappers(sink, "[u8;0]", vec![[0u8; 0]]);
+    all_wrappers(sink, "[u16;1]", vec![[0u16], [65535]]);
+    all_wrappers(sink, "TupleS0", vec![TupleS0()]);
     all_wrappers(sink, "BTreeMap<String,u8>", vec![BTreeMap::new(), [("k".to_string(), 1u8)].into_iter().collect(), [("k".to_string(), 1u8), ("l".to_string(), 24)].into_iter().collect()]);
     all_wrappers(sink, "BTreeMap<u8,u8>", vec![BTreeMap::new(), [(1u8, 2u8), (24, 255)].into_iter().collect()]);
     all_wrappers(sink, "IterSeq", vec![IterSeq(vec![]), IterSeq(vec![1, 24])]);
@@ -901,6 +907,20 @@ pub fn run_c18(sink: &mut dyn Sink) {
     shared(sink, "Vec<String>", vec![vec![], vec![String::new(), "a".to_string()]]);
     shared(sink, "Vec<Option<i16>>", vec![vec![None, Some(-257i16), Some(0)]]);
     shared(sink, "[u8;3]", vec![[0u8, 24, 255]]);
+    // fixed arrays of other sizes: serde visits [T; 0] through deserialize_tuple(0), a path no other type takes
+    shared(sink, "[u8;0]", vec![[0u8; 0]]);
+    shared(sink, "[String;0]", vec![[(); 0].map(|_| String::new())]);
+    shared(sink, "[u8;1]", vec![[24u8]]);
+    shared(sink, "[u16;2]", vec![[0u16, 65535]]);
+    shared(sink, "[i8;4]", vec![[-1i8, 0, 23, -128]]);
+    shared(sink, "[u8;16]", vec![[0xa5u8; 16]]);
+    shared(sink, "[u8;24]", vec![[24u8; 24]]);
+    shared(sink, "[u8;32]", vec![[7u8; 32]]);
+    shared(sink, "([u8;0],u8)", vec![([0u8; 0], 9u8)]);
+    shared(sink, "Option<[u16;0]>", vec![None, Some([0u16; 0])]);
+    shared(sink, "Vec<[u8;0]>", vec![vec![], vec![[0u8; 0], [0u8; 0]]]);
+    shared(sink, "[[u8;0];2]", vec![[[0u8; 0], [0u8; 0]]]);
+    shared(sink, "BTreeMap<u8,[u8;0]>", vec![[(1u8, [0u8; 0])].into_iter().collect::<BTreeMap<_, _>>()]);
     shared(sink, "[String;3]", vec![[String::new(), "a".to_string(), "bb".to_string()]]);
     shared(sink, "(u8,)", vec![(7u8,), (255,)]);
     shared(sink, "(u8,String)", vec![(0u8, String::new()), (24, "s".to_string())]);
